@@ -4,7 +4,8 @@
  * events (besides the devsim ones: CONNCB ITER REGOK REGFAIL SRV RECV WIFI SENTRES DISCCB):
  *     BOOT <ints>            board + stored configuration (layout below at c12_cfg), then the real user_init()
  *         blank bits: 1 Server, 2 Email, 4 WIFI_SSID, 8 WIFI_PWD empty; 16: LocationID+LocationPwd present
- *         flashcfg=1: a valid configuration image is in flash at boot; 0: flash is blank (first boot)
+ *         flashcfg=1: a valid configuration image is in flash at boot; 0: flash is blank (first boot);
+ *         2/3/4: a valid image of the old v6 / v5B / v5A layout with the same settings (migration at boot)
  *     NOTIFY <i> <state>     supla_esp_input_notify_state_change(&supla_input_cfg[i], state)
  *     TICK <i>               the timer callback of input i runs now (if that timer is armed)
  *     TIME <us>              the clock advances, no timer fires            (abstract schedule)
@@ -141,7 +142,25 @@ static void c12_boot(void) {
   v_quiet = 0; ds_log_conn = 0; ds_log_wire = 0; ds_log_gpio = 0; ds_log_restart = 0;
   v_on_sent = ds_sent_hook; v_on_flash = on_flash; ds_on_frame = on_frame;
   memset(v_flash, 0xFF, sizeof v_flash);
-  if (c_flashcfg) {
+  if (c_flashcfg >= 2 && c_flashcfg <= 4) {
+    /* a valid record of an older layout (2: v6, 3: v5B, 4: v5A) holding the same settings; supla_esp_cfg_init migrates it */
+    static union { SuplaEspCfg_old_v6 v6; SuplaEspCfg_old_v5B b; SuplaEspCfg_old_v5A a; unsigned char raw[sizeof(SuplaEspCfg)]; } u;
+    memset(&u, 0, sizeof u);
+#define FILL(R) do { memcpy((R).TAG, "SUPLA", 5); \
+      for (int i = 0; i < SUPLA_GUID_SIZE; i++) (R).GUID[i] = (char)(0x10 + i); \
+      for (int i = 0; i < SUPLA_AUTHKEY_SIZE; i++) (R).AuthKey[i] = (char)(0x40 + i); \
+      if (!(c_blank & 1)) strcpy((R).Server, "10.1.2.3"); \
+      if (!(c_blank & 2)) strcpy((R).Email, "user@example.org"); \
+      if (!(c_blank & 4)) strcpy((R).WIFI_SSID, "ssid"); \
+      if (!(c_blank & 8)) strcpy((R).WIFI_PWD, "wifipassword"); \
+      if (c_blank & 16) { (R).LocationID = 1234; strcpy((R).LocationPwd, "abcd"); } } while (0)
+    if (c_flashcfg == 2) { FILL(u.v6); u.v6.TAG[5] = 6; }
+    else if (c_flashcfg == 3) { FILL(u.b); u.b.TAG[5] = 5; }
+    else { FILL(u.a); u.a.TAG[5] = 5; }
+#undef FILL
+    memcpy(v_flash + CFG_SECTOR * 4096, &u, sizeof u);
+    memset(v_flash + (CFG_SECTOR + STATE_SECTOR_OFFSET) * 4096, 0, sizeof(SuplaEspState));
+  } else if (c_flashcfg) {
     static SuplaEspCfg c; memset(&c, 0, sizeof c);
     memcpy(c.TAG, "SUPLA", 5); c.TAG[5] = 7;
     for (int i = 0; i < SUPLA_GUID_SIZE; i++) c.GUID[i] = (char)(0x10 + i);
